@@ -48,6 +48,7 @@ type vfScenario struct {
 	Edges    [][]string             `json:"edges"` // [from, to, kind]  kind: cd (default) | c | d
 	Branches []vfBranch             `json:"branches"`
 	Max      int                    `json:"max"`
+	NilOut   []string               `json:"nilout"` // nodes whose output type is `any` and whose body returns nil: their state post-handler supplies the value
 	AnyOut   bool                   `json:"anyout"` // the top-level graph is a Graph[map[string]any, any]: input and output type differ (checkpoint stream converters)
 	Chunks   int                    `json:"chunks"` // Collect/Transform calls hand the input over in this many chunks (0/1: one)
 	RMax     int                    `json:"rmax"` // per-call step limit (WithRuntimeMaxSteps) given at every call of the top-level graph; 0: none
@@ -290,6 +291,7 @@ type vfCall struct {
 	k        int    // index of this logical run among the concurrent runs of one compiled runnable (0 when alone)
 	id       string // run id (case id)
 	x0       string // name of the initial term: distinct per concurrent run, so cross-talk changes a value
+	stash    sync.Map // path -> output kept back by a nilout node for its post-handler
 }
 
 type vfCallKey struct{}
@@ -356,6 +358,22 @@ func (r *vfRun) nodeLambda(prefix string, sc *vfScenario, name string) *Lambda {
 				// the nested graph declares no state: ProcessState reaches the parent's state object (one more critical section on it)
 				_ = ProcessState[*vfState](ctx, func(_ context.Context, st *vfState) error {
 					r.cs(rc.rec, st, "", "body", name)
+					if isRerun {
+						// no state of its own, so no pre-handler: the node keeps the input of its aborted attempt in the parent's
+						// state and takes it back when it is run again (the re-run itself gets the zero value)
+						if abort {
+							if st.Saved == nil {
+								st.Saved = map[string]any{}
+							}
+							if in == nil {
+								in = map[string]any{}
+							}
+							st.Saved[path] = in
+						} else if saved, ok := st.Saved[path].(map[string]any); ok {
+							in = saved
+							delete(st.Saved, path)
+						}
+					}
 					return nil
 				})
 			}
@@ -467,6 +485,17 @@ func (r *vfRun) nodeLambda(prefix string, sc *vfScenario, name string) *Lambda {
 				return nil, err
 			}
 			return schema.StreamReaderFromArray([]map[string]any{out}), nil
+		})
+	}
+	if vfIn(sc.NilOut, name) && sc.State && sc.Post {
+		// declared output type any, the body hands nil on: the node's state post-handler must run all the same and supplies the value
+		return InvokableLambda(func(ctx context.Context, in map[string]any) (any, error) {
+			out, err := body(ctx, in)
+			if err != nil {
+				return nil, err
+			}
+			r.cur(ctx).stash.Store(path, out)
+			return nil, nil
 		})
 	}
 	return InvokableLambda(body)
@@ -788,7 +817,17 @@ func (r *vfRun) nodeOpts(prefix string, sc *vfScenario, name string) []GraphAddN
 			}
 		} else {
 			opts = append(opts, WithStatePreHandler(r.preHandler(prefix, sc, name)))
-			if sc.Post {
+			if sc.Post && vfIn(sc.NilOut, name) {
+				post, path := r.postHandler(prefix, sc, name), prefix+name
+				opts = append(opts, WithStatePostHandler(func(ctx context.Context, out any, st *vfState) (any, error) {
+					if out != nil {
+						return nil, fmt.Errorf("verif harness: nilout node %s handed on %T", path, out)
+					}
+					kept, _ := r.cur(ctx).stash.LoadAndDelete(path)
+					m, _ := kept.(map[string]any)
+					return post(ctx, m, st)
+				}))
+			} else if sc.Post {
 				opts = append(opts, WithStatePostHandler(r.postHandler(prefix, sc, name)))
 			}
 		}
